@@ -43,6 +43,7 @@ EXTENDS Selectors
 
 PeToks    == {"::before", "::after"}
 ElemLike  == {"a", "b", "e", "f", "*"}          \* type selectors of the generated alphabet
+IdLike    == {"#i", "#j"}                       \* id selectors of the generated alphabet
 SibCombs  == {"+", "~"}
 ExplCombs == {">", "+", "~"}
 Structural == {",", ")", "sp", ">", "+", "~"}
@@ -77,6 +78,7 @@ From(s, p)   == SubSeq(s, p, Len(s))
 InsertSimple(cmp, s) ==
   IF \E i \in 1..Len(cmp) : cmp[i] = s THEN <<>>
   ELSE IF s.t \in ElemLike THEN (IF cmp[1].t \in ElemLike THEN <<>> ELSE <<s>> \o cmp)
+  ELSE IF s.t \in IdLike /\ \E i \in 1..Len(cmp) : cmp[i].t \in IdLike THEN <<>>       \* one id per compound
   ELSE LET p == FirstPe(cmp) IN
        IF p = 0 THEN Append(cmp, s) ELSE SubSeq(cmp, 1, p - 1) \o <<s>> \o From(cmp, p)
 
